@@ -49,7 +49,7 @@ func (p SkipDecoderTpl[T]) Skip(t TType, maxdepth int) error {
 	if maxdepth == 0 {
 		return errDepthLimitExceeded
 	}
-	if sz := typeToSize[t]; sz > 0 {
+	if sz := typeToSize[uint8(t)]; sz > 0 {
 		_, err := p.r.SkipN(int(sz))
 		return err
 	}
@@ -92,7 +92,7 @@ func (p SkipDecoderTpl[T]) Skip(t TType, maxdepth int) error {
 		if sz < 0 {
 			return errNegativeSize
 		}
-		ksz, vsz := int(typeToSize[kt]), int(typeToSize[vt])
+		ksz, vsz := int(typeToSize[uint8(kt)]), int(typeToSize[uint8(vt)])
 		if ksz > 0 && vsz > 0 {
 			_, err := p.r.SkipN(int(sz) * (ksz + vsz))
 			return err
@@ -114,7 +114,7 @@ func (p SkipDecoderTpl[T]) Skip(t TType, maxdepth int) error {
 		if sz < 0 {
 			return errNegativeSize
 		}
-		if vsz := typeToSize[vt]; vsz > 0 {
+		if vsz := typeToSize[uint8(vt)]; vsz > 0 {
 			_, err := p.r.SkipN(int(sz) * int(vsz))
 			return err
 		}
